@@ -74,3 +74,202 @@ func VerifC02ASCII() {
 		}
 	}
 }
+
+// ---- UTF-8 / UTF-16 positions on non-ASCII input, key segments
+
+type c02Bound struct{ byteOff, unitOff, line, col int }
+
+// c02Bounds lists every rune boundary of s with its offset, line and column
+// counted in UTF-8 bytes, or in UTF-16 code units when utf16 is set
+// (independent reference: runes below U+10000 are one unit, others two).
+func c02Bounds(s string, utf16 bool) []c02Bound {
+	var out []c02Bound
+	off, line, col := 0, 0, 0
+	i := 0
+	for {
+		out = append(out, c02Bound{i, off, line, col})
+		if i >= len(s) {
+			return out
+		}
+		r, w := rune(s[i]), 1
+		if r >= 0x80 {
+			r, w = utf8DecodeRef(s[i:])
+		}
+		u := w
+		if utf16 {
+			u = 1
+			if r >= 0x10000 {
+				u = 2
+			}
+		}
+		i += w
+		off += u
+		if r == '\n' {
+			line++
+			col = 0
+		} else {
+			col += u
+		}
+	}
+}
+
+// utf8DecodeRef decodes one rune by the UTF-8 definition (RFC 3629); an
+// ill-formed sequence is one byte wide and decodes to U+FFFD.
+func utf8DecodeRef(s string) (rune, int) {
+	b0 := s[0]
+	need := 0
+	var r, min rune
+	switch {
+	case b0 >= 0xC2 && b0 <= 0xDF:
+		need, r, min = 1, rune(b0&0x1F), 0x80
+	case b0 >= 0xE0 && b0 <= 0xEF:
+		need, r, min = 2, rune(b0&0x0F), 0x800
+	case b0 >= 0xF0 && b0 <= 0xF4:
+		need, r, min = 3, rune(b0&0x07), 0x10000
+	default:
+		return 0xFFFD, 1
+	}
+	if len(s) < 1+need {
+		return 0xFFFD, 1
+	}
+	for j := 1; j <= need; j++ {
+		c := s[j]
+		if c < 0x80 || c > 0xBF {
+			return 0xFFFD, 1
+		}
+		r = r<<6 | rune(c&0x3F)
+	}
+	if r < min || r > 0x10FFFF || (r >= 0xD800 && r <= 0xDFFF) {
+		return 0xFFFD, 1
+	}
+	return r, 1 + need
+}
+
+func c02Find(bs []c02Bound, p d2ast.Position, what string) c02Bound {
+	for _, b := range bs {
+		if b.unitOff == p.Byte {
+			nd.Assert(p.Line == b.line && p.Column == b.col, what+": line and column agree with the offset")
+			return b
+		}
+	}
+	nd.Fail(what + ": offset is not a character boundary inside the input")
+	return c02Bound{}
+}
+
+// c02Segments: when the input parses without errors, the source text of every
+// segment of a declared key (object key or connection endpoint) parses back to
+// that segment's value.
+var c02Segments bool
+
+func c02WalkU(s string, bs []c02Bound, n d2ast.Node, parent d2ast.Range, depth int) {
+	if n == nil || depth > 12 {
+		return
+	}
+	r := n.GetRange()
+	nd.Cover("node")
+	st := c02Find(bs, r.Start, "node start")
+	en := c02Find(bs, r.End, "node end")
+	nd.Assert(r.Start.Byte <= r.End.Byte, "node starts no later than it ends")
+	known := false
+	if _, ok := n.(*d2ast.Substitution); ok && nd.Known("C02-unterminated-substitution-range") {
+		known = en.byteOff == len(s) && !strings.Contains(s[st.byteOff:], "}")
+	}
+	if !known {
+		nd.Assert(parent.Start.Byte <= r.Start.Byte && r.End.Byte <= parent.End.Byte, "node range nests inside its parent's range")
+	}
+	if _, isImport := n.(*d2ast.Import); isImport {
+		return
+	}
+	if kp, ok := n.(*d2ast.KeyPath); ok && c02Segments {
+		for _, seg := range kp.Path {
+			sr := seg.Unbox().GetRange()
+			a, b := c02Find(bs, sr.Start, "segment start"), c02Find(bs, sr.End, "segment end")
+			if a.byteOff > b.byteOff {
+				continue // reported by the ordering assertion of the segment node
+			}
+			nd.Cover("segment")
+			k2, err := ParseKey(s[a.byteOff:b.byteOff])
+			if err != nil {
+				// a segment such as "-" is only a key when something follows it
+				k2, err = ParseKey(s[a.byteOff:b.byteOff] + " ")
+			}
+			nd.Assert(err == nil && k2 != nil && len(k2.Path) == 1, "the source text of a key segment parses as one key segment")
+			nd.Assert(k2.Path[0].Unbox().ScalarString() == seg.Unbox().ScalarString(), "the source text of a key segment parses back to the segment's value")
+		}
+	}
+	for _, ch := range n.Children() {
+		c02WalkU(s, bs, ch, r, depth+1)
+	}
+}
+
+func c02CheckU(s string, utf16 bool) {
+	m, err := Parse("f.d2", strings.NewReader(s), &ParseOptions{UTF16Pos: utf16})
+	nd.Assert(m != nil, "Parse returns a map")
+	bs := c02Bounds(s, utf16)
+	c02Segments = err == nil
+	whole := d2ast.Range{Start: d2ast.Position{}, End: d2ast.Position{Byte: bs[len(bs)-1].unitOff}}
+	c02WalkU(s, bs, m, whole, 0)
+	if err != nil {
+		if pe, ok := err.(*ParseError); ok {
+			for _, e := range pe.Errors {
+				nd.Cover("error")
+				if nd.Known("C02-missing-value-after-continuation") && strings.HasSuffix(e.Message, "missing value after colon") && strings.Contains(s, "\\\n") {
+					continue
+				}
+				c02Find(bs, e.Range.Start, "error start")
+				c02Find(bs, e.Range.End, "error end")
+				nd.Assert(e.Range.Start.Byte <= e.Range.End.Byte, "error starts no later than it ends")
+			}
+		}
+	}
+}
+
+func c02RuneString(name string) string {
+	r := nd.Rune(name)
+	// one representative class per encoded length keeps the solver's work on
+	// the encoder small; every code point of the class is covered
+	return string(utf8AppendRef(nil, r))
+}
+
+func utf8AppendRef(b []byte, r rune) []byte {
+	switch {
+	case r < 0x80:
+		return append(b, byte(r))
+	case r < 0x800:
+		return append(b, 0xC0|byte(r>>6), 0x80|byte(r)&0x3F)
+	case r >= 0xD800 && r <= 0xDFFF:
+		return append(b, 0xEF, 0xBF, 0xBD)
+	case r < 0x10000:
+		return append(b, 0xE0|byte(r>>12), 0x80|byte(r>>6)&0x3F, 0x80|byte(r)&0x3F)
+	}
+	return append(b, 0xF0|byte(r>>18), 0x80|byte(r>>12)&0x3F, 0x80|byte(r>>6)&0x3F, 0x80|byte(r)&0x3F)
+}
+
+// VerifC02Runes: positions in UTF-8 and UTF-16 mode on inputs with arbitrary
+// code points in key, value, quoted and block-string positions.
+func VerifC02Runes() {
+	utf16 := nd.Bool("utf16")
+	x, y := c02RuneString("x"), c02RuneString("y")
+	var s string
+	switch nd.Choose("shape", 0, nd.Param("SHAPES", 5)-1) {
+	case 0:
+		s = x + ": " + y + "\n" + x
+	case 1:
+		s = "a" + x + "." + y + " -> b\nc"
+	case 2:
+		s = "'" + x + "': \"" + y + "\"\nd: |" + x + "|"
+	case 3:
+		s = x + y
+	case 4:
+		s = "a: {\n ..." + x + "\n}\n" + y + ":"
+	}
+	c02CheckU(s, utf16)
+}
+
+// VerifC02Alpha: every string of length <= N over a 12-character alphabet of
+// D2 punctuation, both position modes, including the key-segment check.
+func VerifC02Alpha() {
+	n := nd.Choose("len", 1, nd.Param("NA", 4))
+	s := nd.From("s", n, ".:x \n{}-*$@'")
+	c02CheckU(s, nd.Bool("utf16"))
+}
